@@ -49,6 +49,24 @@ theorem inv_step (s : St) (e : Ev) (h : Inv s) : Inv (step s e) := by
           rcases List.mem_cons.mp hi with e | e
           · subst e; exact Nat.ne_of_lt (h.slotFresh p hp)
           · exact h.disjoint i e p hp
+  | pushCallLost =>
+    simp only [step]
+    split
+    · exact ⟨h.tableFresh, h.slotFresh, h.tableNodup, h.disjoint, h.slotOnce⟩
+    · split
+      · exact ⟨h.tableFresh, h.slotFresh, h.tableNodup, h.disjoint, h.slotOnce⟩
+      · refine ⟨?_, ?_, ?_, ?_, h.slotOnce⟩
+        · intro i hi
+          rcases List.mem_cons.mp hi with e | e
+          · simp [e]
+          · exact Nat.lt_succ_of_lt (h.tableFresh i e)
+        · intro p hp; exact Nat.lt_succ_of_lt (h.slotFresh p hp)
+        · refine List.nodup_cons.mpr ⟨?_, h.tableNodup⟩
+          intro hm; exact Nat.lt_irrefl _ (h.tableFresh _ hm)
+        · intro i hi p hp
+          rcases List.mem_cons.mp hi with e | e
+          · subst e; exact Nat.ne_of_lt (h.slotFresh p hp)
+          · exact h.disjoint i e p hp
   | pushNotify =>
     simp only [step]
     split
@@ -120,6 +138,14 @@ theorem inv_run (es : List Ev) (s : St) (h : Inv s) : Inv (run s es) := by
   induction es generalizing s with
   | nil => exact h
   | cons e es ih => exact ih _ (inv_step s e h)
+
+/-- a callback whose request could not be sent is told so at once and transmits nothing; its id is
+spent all the same (never handed out again), and it is outstanding until its context ends or the
+server stops, like any other -/
+theorem lost_request_returns_at_once (s : St) (ha : s.allowPush = true) (hr : s.running = true) :
+    (step s .pushCallLost).refused = .sendFailed :: s.refused ∧ (step s .pushCallLost).sent = s.sent ∧
+    (step s .pushCallLost).nextId = s.nextId + 1 ∧ s.nextId ∈ (step s .pushCallLost).table := by
+  simp [step, ha, hr]
 
 /-- **callback ids are unique among outstanding callbacks and never reused** -/
 theorem callback_id_fresh (a : Bool) (es : List Ev) :
